@@ -397,7 +397,7 @@ func (w *Worker) configFaults(r *simrt.Rand) cfgFault {
 		p := "/gcsim-nonexistent/rules-*.go"
 		return cfgFault{Name: "rules-pattern-without-match", Flags: map[string]string{"enable": "ruleguard", "disable": "", "@ruleguard.rules": p}, Names: []string{p}}
 	case 3:
-		vs := []string{"nosuchchecker", "#nosuchtag", "nosuch1,nosuch2"}
+		vs := []string{"nosuchchecker", "#nosuchtag", "nosuch1,nosuch2", "", " , "} // also an explicitly empty list
 		v := vs[r.Intn(len(vs))]
 		return cfgFault{Name: "empty-selection", Flags: map[string]string{"enable": v, "disable": ""}, Names: []string{"empty", "no checkers", "selected", v}}
 	case 4:
